@@ -755,7 +755,24 @@ func (g *Gen) evalCall(n *Node, env *Env) (Term, error) {
 			}
 			return Term{S: fmt.Sprintf("(forall ((%s Int)) %s)", q, body), Sort: "Bool"}, nil
 		}
-		return Term{S: fmt.Sprintf("(exists ((%s Int)) (and %s %s))", q, rng, p), Sort: "Bool"}, nil
+		ex := fmt.Sprintf("(exists ((%s Int)) (and %s %s))", q, rng, p)
+		if len(p) < 3000 && !strings.Contains(p, "(forall ") && !strings.Contains(p, "(exists ") && !strings.Contains(hi.S, "q!") && !strings.Contains(lo.S, "q!") {
+			// exists over [lo, hi): add the two boundary instances as ground disjuncts (an equivalent formula: each
+			// disjunct implies the existential). They are the witnesses that append / first-element goals need and
+			// spare the solver from guessing them (such goals flipped to `unknown` when an unrelated axiom was added).
+			var ws []string
+			for _, w := range []string{fmt.Sprintf("(- %s 1)", hi.S), lo.S} {
+				e3 := env.clone()
+				e3.names[args[0].Val] = Term{S: w, Sort: "Int", T: types.Typ[types.Int]}
+				if pw, err := g.evalBool(args[3], e3); err == nil {
+					ws = append(ws, fmt.Sprintf("(and (<= %s %s) (< %s %s) %s)", lo.S, w, w, hi.S, pw))
+				}
+			}
+			if len(ws) > 0 {
+				ex = "(or " + ex + " " + strings.Join(ws, " ") + ")"
+			}
+		}
+		return Term{S: ex, Sort: "Bool"}, nil
 	case "forallI", "forallS", "forallB", "existsI", "existsS":
 		if len(args) != 2 || args[0].Kind != "id" {
 			return Term{}, fmt.Errorf("%s(x, P)", name)
@@ -1083,11 +1100,20 @@ func (g *Gen) specFnText() string {
 			fmt.Fprintf(&b, "(declare-fun %s (%s) %s)\n", name, strings.Join(psorts, " "), f.Ret)
 			continue
 		}
-		kw := "define-fun"
 		if f.Rec {
-			kw = "define-fun-rec"
+			// A recursive spec function is given as an uninterpreted function with its defining equation as a
+			// quantified axiom triggered on the application (a conservative extension for a terminating recursion,
+			// exactly what define-fun-rec states). z3 5.1 decides the scanner obligations of forEachMediaRange in
+			// 0.1 s in this form and not in 60 s with define-fun-rec (its recfun unfolding diverges).
+			var as []string
+			for _, pr := range f.Params {
+				as = append(as, "a!"+pr.Name)
+			}
+			app := "(" + name + " " + strings.Join(as, " ") + ")"
+			fmt.Fprintf(&b, "(declare-fun %s (%s) %s)\n(assert (forall (%s) (! (= %s %s) :pattern (%s))))\n", name, strings.Join(psorts, " "), f.Ret, strings.Join(ps, " "), app, t.S, app)
+			continue
 		}
-		fmt.Fprintf(&b, "(%s %s (%s) %s %s)\n", kw, name, strings.Join(ps, " "), f.Ret, t.S)
+		fmt.Fprintf(&b, "(define-fun %s (%s) %s %s)\n", name, strings.Join(ps, " "), f.Ret, t.S)
 	}
 	for _, r := range g.P.cs.Raw {
 		b.WriteString(r + "\n")
